@@ -323,7 +323,7 @@ func checkC17(c *Ctx) {
 	}
 	c.addInt("traces_validated_against_impl", 2)
 	c.cov("exhaustive", true)
-	c.cov("rule", "FamMath: every built-in x 0..MaxArgs arguments x every combination of 8 argument kinds (pruned beyond arity+1); abs, sqrt, round, sin, cos, tan on 30 boundary values and NRandom seeded random doubles (abs, sqrt, round exactly; sin/cos within 4 ulp and tan within 16 ulp of fdlibm, exact at 0, NaN, Inf); pow on a 17x17 boundary grid, exact where every correct pow agrees and within 64 ulp otherwise, and pow(a,b) == a**b; min/max over all tuples of length <= 3 over 4 values (list and array form), signed zeros, empty and nested arrays; clock() against the harness clock")
+	c.cov("rule", "FamMath: every built-in x 0..MaxArgs arguments x every combination of 8 argument kinds (pruned beyond arity+1); abs, sqrt, round, sin, cos, tan on 30 boundary values and NRandom seeded random doubles (abs, sqrt, round exactly; sin/cos within 4 ulp and tan within 32 ulp of fdlibm, exact at 0, NaN, Inf); pow on a 17x17 boundary grid, exact where every correct pow agrees and within 64 ulp otherwise, and pow(a,b) == a**b; min/max over all tuples of length <= 3 over 4 values (list and array form), signed zeros, empty and nested arrays; clock() against the harness clock")
 	semAssumptions(c)
 	c.Ev.Assumptions = append(c.Ev.Assumptions, "accuracy of the platform's math library: 4 ulp (sin, cos), 8 ulp (tan), 64 ulp (pow) relative to StrictMath (fdlibm)")
 }
